@@ -23,6 +23,9 @@ class RecFundamentals(Fundamentals):
     def __init__(self, prng):
         super().__init__(prng)
         self.chunks = []
+        self.version = 0          # the harness' count of setter calls so far (the parameter set's identity)
+        self.fs_ops = []          # the reads / setter calls / shocks performed, in the model's vocabulary
+        self.fs_g = []            # _generated_until after each of them
         # the harness' own bookkeeping of what has been configured, by unordered pair (last call wins)
         self.expected_corr = {}
 
@@ -53,8 +56,13 @@ class RecFundamentals(Fundamentals):
                             "returns": np.array(r), "start": [self.prices[x][self._generated_until] for x in generate_target_ids],
                             "vols": [self.volatilities[x] for x in generate_target_ids],
                             "drifts": [self.drifts[x] for x in generate_target_ids],
-                            "expected_corr": dict(self.expected_corr), **rec})
+                            "expected_corr": dict(self.expected_corr), "version": self.version, **rec})
         return r
+
+    def fs(self, *op):
+        """note an operation of the regeneration model and the regeneration point after it"""
+        self.fs_ops += [str(x) for x in op]
+        self.fs_g.append(self._generated_until)
 
 
 def gen_case(rng):
@@ -117,6 +125,7 @@ def run_case(case):
     if case.get("pregen"):
         for i in range(len(case["markets"])):
             f.get_fundamental_price(market_id=i, time=case["horizon"])
+        f.fs("R", case["horizon"])
     for op in case["ops"]:
         t = op["t"]
         # the simulation has reached time t: everything up to t has been read (unless this call follows
@@ -124,35 +133,47 @@ def run_case(case):
         if not op.get("noread"):
             for i in range(len(case["markets"])):
                 f.get_fundamental_price(market_id=i, time=t)
+            f.fs("R", t)
         before = snap()
         g_before = f._generated_until
         k = op["kind"]
         if k == "drift":
             f.change_drift(market_id=op["market"], drift=op["value"], time=t)
+            f.version += 1      # after the call: what the call generates first is generated with the old set
+            f.fs("C", t, f.version)
         elif k == "vol":
             f.change_volatility(market_id=op["market"], volatility=abs(op["value"]), time=t)
+            f.version += 1      # after the call: what the call generates first is generated with the old set
+            f.fs("C", t, f.version)
         elif k == "corr" and len(case["markets"]) >= 2:
             a, b = (1, 0) if op.get("swap") else (0, 1)
             if f.volatilities[a] > 0 and f.volatilities[b] > 0:
                 f.set_correlation(a, b, op.get("rho", 0.3), time=t)
+                f.version += 1
                 f.expected_corr[frozenset((a, b))] = op.get("rho", 0.3)
+                f.fs("C", t, f.version)
         elif k == "uncorr" and len(case["markets"]) >= 2:
             a, b = (1, 0) if op.get("swap") else (0, 1)
             if frozenset((a, b)) in f.expected_corr:
                 f.remove_correlation(a, b, time=t)
+                f.version += 1
                 del f.expected_corr[frozenset((a, b))]
+                f.fs("C", t, f.version)
         elif k == "shock":
             # what Market.change_fundamental_price does
             new = f.prices[op["market"]][t] * op["scale"]
             f.prices[op["market"]][t] = new
             f._generated_until = t
+            f.fs("S", t)
         g_after = f._generated_until
         if not op.get("noread"):
             for i in range(len(case["markets"])):
                 f.get_fundamental_price(market_id=i, time=min(t + 3, case["horizon"]))
+            f.fs("R", min(t + 3, case["horizon"]))
         events.append({"op": op, "before": before, "after": snap(), "g_after": g_after, "g_before": g_before})
     for i in range(len(case["markets"])):
         f.get_fundamental_price(market_id=i, time=case["horizon"])
+    f.fs("R", case["horizon"])
     return f, events
 
 
@@ -314,6 +335,16 @@ def run_C12(ctx, model_available=True):
         for v in vs:
             if not any(x["signature"] == v["signature"] for x in violations):
                 violations.append(v)
+        # correspondence: the regeneration bookkeeping (PamsModel/FundSched.lean) on the same operations —
+        # the regeneration point after every operation, and for every final step the parameter set
+        # (identified by the number of setter calls before it) its kept price was generated with
+        ver = {}
+        for ch in f.chunks:
+            for u in range(ch["from"] + 1, ch["from"] + ch["length"] + 1):
+                ver[u] = ch["version"]
+        g_end = f._generated_until
+        lines.append("fsched %d %s" % (f._generate_chunk_size, " ".join(f.fs_ops)))
+        expects.append(("fsched", list(f.fs_g), [0] + [ver.get(u, -1) for u in range(1, g_end + 1)], case))
         # correspondence: each recorded chunk vs the Lean Float model
         for ch in f.chunks[:6]:
             for k, x in enumerate(ch["ids"]):
@@ -321,7 +352,7 @@ def run_C12(ctx, model_available=True):
                 g = ch["from"]
                 # the prices this chunk produced are only observable if no later chunk overwrote them
                 lines.append("genpath %s %s" % (fbits(ch["start"][k]), " ".join(fbits(r) for r in rs[:40])))
-                expects.append((ch["start"][k], rs[:40], x, g))
+                expects.append(("genpath", ch["start"][k], rs[:40], x, g))
         if len(samples) < 2:
             samples.append({"case": case, "first_prices": {i: f.prices[i][:4] for i in range(len(case["markets"]))}})
     compared = 0
@@ -331,7 +362,21 @@ def run_C12(ctx, model_available=True):
         if out is None:
             diffs.append({"channel": "driver", "detail": err[-1500:]})
         else:
-            for o, (p0, rs, x, g) in zip(out, expects):
+            for o, ex in zip(out, expects):
+                if ex[0] == "fsched":
+                    _, gs, prov, case_ = ex
+                    left, _, right = o[1:].partition("|")
+                    mg = [int(x) for x in left.split()]
+                    mp = [int(x) for x in right.split()]
+                    compared += 1
+                    if mg != gs:
+                        diffs.append({"channel": "fund.generated_until", "model": mg, "impl": gs, "input": case_})
+                    elif mp != prov:
+                        k = next((j for j in range(min(len(mp), len(prov))) if mp[j] != prov[j]), min(len(mp), len(prov)))
+                        diffs.append({"channel": "fund.sched", "what": "parameter set step %d was generated with" % k,
+                                      "model": mp[k:k + 3], "impl": prov[k:k + 3], "input": case_})
+                    continue
+                _, p0, rs, x, g = ex
                 model = [bits2f(b) for b in o.split()[1:]]
                 # numpy's own evaluation of the same chunk
                 want = (p0 * np.exp(np.cumsum(np.array(rs)))).tolist()
